@@ -32,7 +32,7 @@ PlanOf(e) == [k \in 1..Len(e.plan) |-> Unit(e.plan[k])]
 TReset == IsEvent("init") /\ InitVals
 TSend == IsEvent("send") /\ Send(E.i, E.c, IF E.m = 1 THEN "streamed" ELSE "buffered", PlanOf(E))
 TPush == IsEvent("push") /\ ServerPush(E.c) /\ Head(srvq[E.c]).kind = E.kind
-TSrvClose == IsEvent("srvclose") /\ ServerClose(E.c)
+TSrvClose == IsEvent("srvclose") /\ (ServerClose(E.c) \/ ServerCloseLate(E.c))
 TPull == /\ IsEvent("pull") /\ Owner(E.c) # {}
          /\ IF E.eof = 1 THEN wire[E.c] # <<>> /\ Head(wire[E.c]) = EOF /\ Same
             ELSE Pull(TheOwner(E.c)) /\ Head(wire[E.c]).id = E.id
